@@ -530,7 +530,7 @@ func parseResult(resp prpc.Response) (spec.Value, status.Status) {
 	// Parse result
 	result := resp.Result()
 	if len(result) == 0 {
-		return nil, status.OK
+		return nil, st
 	}
-	return result, status.OK
+	return result, st
 }
